@@ -418,7 +418,8 @@ func (e *seqEngine) Exec(op *Op) string {
 		for i, o := range offs {
 			strs[i] = strconv.FormatInt(o, 10)
 		}
-		return "ok offsets=" + strings.Join(strs, ",")
+		// the legacy directory as written, byte for byte (input of the Lean model of the upgrade)
+		return "ok offsets=" + strings.Join(strs, ",") + " img=" + dumpFiles(readDirFiles(e.dir))
 	case "chunks":
 		// sizes of the numbered index and primary files, and where the index points for each given key
 		var sb strings.Builder
